@@ -67,6 +67,10 @@ Definition dec_step (l : list N) : option xstep :=
   match l with
   | 0 :: ri :: code :: a1 :: a2 :: a3 :: a4 :: nch :: r =>
       if (64 <? ri) || (64 <? nch) then None else
+      if (code =? 23) || (code =? 24) then
+        (* ptr_guard / ptr_guard_mut of the accessor, taken and dropped *)
+        match dec_chain (S (length r)) nch r with Some ch => Some (XGuard (N.to_nat ri) RWhole ch) | None => None end
+      else
       match dec_sop code a1 a2 a3 a4, dec_chain (S (length r)) nch r with
       | Some o, Some ch => Some (XBase (SAcc (N.to_nat ri) ch o))
       | _, _ => None end
@@ -80,6 +84,11 @@ Definition dec_step (l : list N) : option xstep :=
       | None => None end
   | 5 :: ri :: rk :: rx :: ry :: rz :: code :: a1 :: a2 :: a3 :: a4 :: nch :: r =>
       if (64 <? ri) || (64 <? nch) then None else
+      if (code =? 23) || (code =? 24) then
+        match dec_rootk rk rx ry rz, dec_chain (S (length r)) nch r with
+        | Some k, Some ch => Some (XGuard (N.to_nat ri) k ch)
+        | _, _ => None end
+      else
       match dec_sop code a1 a2 a3 a4, dec_chain (S (length r)) nch r with
       | Some o, Some ch =>
           if rk =? 3 then Some (XGm rx ry ch o)
@@ -92,6 +101,16 @@ Definition dec_step (l : list N) : option xstep :=
       match dec_region_sop code a1 a2 a3 a4 with
       | Some o => Some (XRegion (N.to_nat ri) o)
       | None => None end
+  (* queries that write nothing: 0 regs[ri].get_host_address(MemoryRegionAddress(a)), 1 gm.get_host_address(GuestAddress(a)) - the
+     address resolution and bounds check of a one-byte load at that layer (check_address / to_region_addr), count 1 when
+     granted; 2 regs[ri].as_ptr() / len() / start_addr() / bitmap().dirty_at - an empty read of the region *)
+  | [8; ri; q; a] =>
+      if 64 <? ri then None else
+      match q with
+      | 0 => Some (XBase (SAcc (N.to_nat ri) [] (OLoad 1 a)))
+      | 1 => Some (XBase (SGuest (GLoad 1 a)))
+      | 2 => Some (XBase (SAcc (N.to_nat ri) [] (ORead 0 0)))
+      | _ => None end
   | 7 :: ri :: rk :: rx :: ry :: rz :: rj :: doff :: dlen :: nch :: r =>
       if (64 <? ri) || (64 <? rj) || (64 <? nch) then None else
       match dec_rootk rk rx ry rz, dec_chain (S (length r)) nch r with
@@ -113,12 +132,15 @@ Fixpoint dec_regions (n : nat) (l : list tok) : option (list region * list tok) 
   | S k => match l with
            | TL [st; sz; ps; trk] :: r =>
                (* the token is flavour + 16 * region kind; region kind 1 = (Xen build) a grant region mapped in advance, whose
-                  start is a page multiple - the kind of mapping behind a region is not part of the model: MmapRegion::get_slice
+                  start is a page multiple; kinds 2..8 = the region comes from one of the crate's own bitmap-creating constructors
+                  (MmapRegion::new / from_file / build / build_raw, GuestRegionMmap::from_range, GuestMemoryMmap::from_ranges /
+                  from_ranges_with_files): the model is the same region with ceil(size / ps) clean pages - the constructor and the
+                  kind of mapping behind a region are not part of the model: MmapRegion::get_slice
                   takes pointer and bitmap view the same way for every kind *)
                let tr := trk mod 16 in
                (* flavour 7 = the bitmap of the crate's default constructors (NewBitmap::with_len): one bit per host page *)
                if (ps =? 0) || (1000000 <? sz) || ((tr =? 7) && negb (ps =? 4096))
-                  || (1 <? trk / 16) || ((trk / 16 =? 1) && (negb (st mod 4096 =? 0) || (1099511627776 <? st))) then None else
+                  || (8 <? trk / 16) || ((trk / 16 =? 1) && (negb (st mod 4096 =? 0) || (1099511627776 <? st))) then None else
                match dec_regions k r with
                | Some (rs, rest) =>
                    Some ({| r_start := st; r_size := sz; r_ps := ps; r_tracked := (tr =? 1) || (tr =? 2) || (tr =? 3) || (tr =? 5) || (tr =? 6) || (tr =? 7);
@@ -222,7 +244,8 @@ Definition dirty_suite (which : N) (inp obs : list tok) : verdict :=
       | Some (rs, rest') =>
           (* the harness builds every region of a case with the bitmap flavour of the first one *)
           if negb (forallb (fun t => match t, rest with
-                                     | TL [_; _; _; f], TL [_; _; _; f0] :: _ => f =? f0
+                                     (* ... and, for from_ranges (kind 7: one call makes all the bitmaps), one page size *)
+                                     | TL [_; _; p; f], TL [_; _; p0; f0] :: _ => (f =? f0) && ((p =? p0) || negb (f / 16 =? 7))
                                      | _, _ => false end) (firstn (N.to_nat nreg) rest)) then malformed else
           match dec_steps rest', dec_obs (S (length obs)) (N.to_nat nreg) obs with
           | Some xs, Some os =>
